@@ -733,6 +733,17 @@ class Gen(object):
             cd, self.comp_depth = self.comp_depth, 0
             self.declared.append(set())
             body = self.expr(depth + 1, bound | set(ps), False)
+            if self.rng.random() < 0.35:
+                # the lambda binds a name itself (walrus, also inside a comprehension) and reads it before
+                # and after: a local of the lambda, never satisfied from outside
+                w = self.rng.choice([n_ for n_ in POOL if n_ not in ps] or POOL)
+                if w not in ps:
+                    bind = self.rng.choice(['(%s := %s)' % (w, self.name()),
+                                            '[(%s := %s) for %s in %s]' % (w, self.name(), self.name(), self.name())])
+                    items = [w, bind, w, body]
+                    if self.rng.random() < 0.5:
+                        items = [bind, w, body]
+                    body = '(%s)' % ', '.join(items)
             self.declared.pop()
             self.comp_depth = cd
             return '(lambda %s: %s)' % (ptext, body)
